@@ -30,6 +30,7 @@ ASSUMPTIONS = ["grid compatible with the group (Grid asserts it)", "the global d
                "there the orbit partition of the grid points, the tiling of the refined cell by its sub-cells and the class weights of merged children are decided instead", "the test point does not lie on a cell boundary plane (measure zero; boundaries are shared by neighbouring cells)",
                "refinement steps are applied the way run() applies them: K_list += K.divide(...); exclude_equiv_points(K_list, new_points=...)"]
 OUTSIDE = ["groups / grids / meshes beyond the enumerated ones", "more than two refinement steps (C10 follows weights through run() for longer histories)", "GridTrigonalH weights (a user-chosen fraction of the zone)"]
+QUERY_TIMEOUT_MS = dict(quick=20000, thorough=120000)
 STUBS = ["KpointBZtetra edge choice (name-mangled cached property) preset per case when the vertices are symbolic"]
 
 
@@ -380,7 +381,7 @@ def cases(tier, seed):
                                         dict(gens=gens, latt=latt, NKdiv=NK, mesh=mesh, first=first, second=second), timeout=900 if q else 2400))
     for NK, mesh in (((2, 2, 1), 2), ((3, 1, 2), (2, 1, 2)), ((2, 2, 2), 3)):
         out.append(Case(f"divide without symmetry NK={NK} mesh={mesh}", case_divide_nosym, dict(NKdiv=NK, mesh=mesh), timeout=900))
-    for latt, length, NKFFT in (("cubic", 3, 1), ("cubic", 7, 2), ("tetra", 6, 1), ("tric", 5, 1)) + (() if q else (("cubic", 12, 1), ("hex", 8, 2))):
+    for latt, length, NKFFT in (("cubic", 3, 1), ("cubic", 7, 2), ("tetra", 6, 1), ("tric", 5, 1)) + (() if q else (("cubic", 9, 1), ("hex", 8, 2))):
         out.append(Case(f"tetra grid {latt} length={length} NKFFT={NKFFT}", case_tetra_grid, dict(latt=latt, length=length, NKFFT=NKFFT), timeout=900 if q else 2400))
     for edge in range(6):
         for ndiv in (2, 3):
